@@ -272,6 +272,11 @@ def load(text: str, lenient_names=frozenset()) -> Program:
             return ("num", et["qualified"][tok])
         if tok in CONSTANTS:
             return ("num", CONSTANTS[tok])
+        for tk in ("L", "S", "B"):
+            # a bare logic/slot/batch name used as a value (the compiler prints LogicType members
+            # without prefix); accepted and read as the member's number
+            if tok in et[tk]:
+                return ("num", et[tk][tok])
         if allow_label and tok in prog.labels:
             return ("label", tok)
         raise LoadError(i, line, f"operand {tok!r} is not a register, number or known constant")
